@@ -715,3 +715,7 @@ impl<'a, 'b> Convert<'a, 'b> {
         }
     }
 }
+
+#[cfg(kani)]
+#[path = "/verif/harness/core/convert_value.rs"]
+mod verif;
